@@ -86,7 +86,10 @@ txt += ("\nLessons that were turned into input classes everywhere they apply: in
         "from round 11 (a reduced round of 10 properties, 1 missed at first): unrolled automaton graphs are simplified on a copy and compared again (C17); the nine\n"
         "other changes -- non-zero leading labels, empty slices in the sparse matrix form, uncrossed physical legs in the density step, masked initial blocks, a\n"
         "generalised single-input test, a shared adjacency list edited by the cover routine, children sorted in place, a lookup key with the left charge beyond 512\n"
-        "tails -- were caught at the first try by classes added in earlier rounds.\n\n"
+        "tails -- were caught at the first try by classes added in earlier rounds;\n"
+        "from round 12 (the other 10 properties, 4 missed at first): Bose-Hubbard with local dimensions 13..200 (occupancies in a narrow integer type), coefficient\n"
+        "tensors with exactly vanishing REAL parts, an evolved state EDITED between two TDVP calls so that shape and norm of a tensor are kept but its canonical form is\n"
+        "not, and Lanczos runs of 70..110 vectors on a real 160-dimensional problem with an isolated level.\n\n"
         "Note on the repository suite: `test_krylov.py::test_eigh_krylov` fails in about 2 % of runs on the unchanged tree (12 of 600 seeded replays of its body, the\n"
         "same number before and after fix `3c1fa1a`): its tolerance on the second Ritz value is statistical. It is unrelated to any change made here.\n")
 d = open('/verif/DESIGN.md').read()
